@@ -15,7 +15,7 @@ cp $DEMO $OUT/
 S=$(mktemp -d /tmp/seedchk.XXXX)
 git -C /repo worktree add -q --detach $S HEAD
 cd $S
-cp $DEMO $S/; DEMO=$S/$(basename $DEMO); sed -i "s#$WT#$S#g; s#/tmp/wt-$PROP#$S#g" $DEMO
+cp $DEMO $S/; DEMO=$S/$(basename $DEMO); sed -i "s#$WT#$S#g; s#/tmp/wt-$PROP#$S#g; s#/tmp/w2-$PROP#$S#g" $DEMO
 PYTHONPATH=$S /venv/bin/python $DEMO >/dev/null 2>&1; D0=$?
 git apply $OUT/patch.diff; AP=$?
 T=$(PYTHONPATH=$S /venv/bin/python -m pytest -q -p no:cacheprovider unittests 2>&1 | tail -1)
